@@ -368,12 +368,15 @@ def run_entry(case, R):
             return
     o = o or {}
     # memory layout of the argument arrays: C order, Fortran order (e.g. loadmat output) or a non-contiguous view
-    layout = ['c', 'f', 'view'][int(rng.integers(0, 3))]
+    layout = ['c', 'f', 'view', 'colmajor'][int(rng.integers(0, 4))]
 
     def relayout(x):
         if isinstance(x, np.ndarray) and x.ndim >= 2 and x.size > 1:
             if layout == 'f':
                 return np.asfortranarray(x)
+            if layout == 'colmajor':
+                # the last two axes stored column-major (a transposed view, a loadmat result): LAPACK wrappers may work in place on it
+                return np.ascontiguousarray(np.swapaxes(x, -1, -2)).swapaxes(-1, -2)
             if layout == 'view':
                 big = np.zeros(x.shape[:-1] + (2 * x.shape[-1],), dtype=x.dtype)
                 big[..., ::2] = x
